@@ -173,7 +173,7 @@ def check(ctx):
     f = ctx.fn("block:BlockGeometry.sustain")
     r = [s for s in f.node.body if isinstance(s, ast.Return)]
     t = str(sym(r[0].value))
-    ctx.check(t == "BlockGeometry(self.num_trials*sustain_count, self.preamble_size*sustain_count, {f: n * sustain_count for f, n in self.factor_to_sustain_count.items()})",
+    ctx.check(t == "BlockGeometry(self.num_trials*sustain_count, self.preamble_size*sustain_count, {_b0: _b1*sustain_count for (_b0, _b1) in self.factor_to_sustain_count.items()})",
               R, f, "sustain()", "trial count, preamble and per-factor counts all scale", "BlockGeometry.sustain is `%s`" % t)
     base = repo.cls("base_constraint:Constraint")
     fam = base.all_subclasses()
